@@ -86,7 +86,7 @@ theorem evalSingle_key {cfg : Cfg} {h : HState} {ai : It} {t : Tok} {k : Key} (h
     rw [hch]
   | long n =>
     obtain ⟨hty, hstr⟩ := ht
-    have e : Key.parse n = .ok k := hk
+    have e : wordKey n = .ok k := hk
     unfold evalSingleArgument
     rw [hty]
     dsimp only
